@@ -212,8 +212,10 @@ def h_request(S, B):
     S.check("exactly-one-lookup", len(lookups) == 1)
     name = lookups[0][1]
     S.check("forwarded-only-if-the-pattern-allows-the-object", pattern_allows(pattern, name))
-    S.known("C20-path-is-matched-as-a-prefix-so-a-newline-truncates-the-member-name", "\n" in rest)
-    S.known("C20-members-named-like-local-proxy-attributes-are-not-forwarded", And(len(invokes) == 0, len(metas) == 1))
+    S.known("C20-path-is-matched-as-a-prefix-so-a-newline-truncates-the-member-name", "\n" in rest,
+            checks=["exactly-the-named-object-and-member", "only-$meta-answers-without-a-call"])
+    S.known("C20-members-named-like-local-proxy-attributes-are-not-forwarded", And(len(invokes) == 0, len(metas) == 1),
+            checks=["only-$meta-answers-without-a-call", "no-call-means-error-status"])
     if len(invokes) == 1:
         member = invokes[0][1]
         if member == "__getattr__":
